@@ -176,7 +176,7 @@ def run(tier, seed):
             elif step == 'replace-signature':
                 t.inputs[0].signature = SECP256k1Signature(gen.rb(rng, 64))
             else:
-                t.outputs[0].value = t.outputs[0].value + 1
+                t.outputs[0].value = t.outputs[0].value ^ 1
             ok1 = t.hash() == sha256d(t.serialize())
         except Exception as e:
             ok0, ok1 = True, True          # an object that refuses the alteration is fine
